@@ -1,6 +1,7 @@
 import DmrVerif.Driver.Loop
 import DmrVerif.Driver.Integrity
+import DmrVerif.Driver.TranslPduSmall
 
-/-! model driver for property C04 -/
+/-! model driver for property C04 (`t.ps.*`: the small bit-field PDUs translated from the source, `Gen/TranslPduSmall.lean`) -/
 
-def main : IO Unit := Dmr.Driver.runMain [Dmr.Driver.integrityOp, Dmr.Driver.crcOp]
+def main : IO Unit := Dmr.Driver.runMain [Dmr.Driver.integrityOp, Dmr.Driver.crcOp, Dmr.Driver.translPduSmallOp]
